@@ -1612,5 +1612,10 @@ class StarterModel(Starter):
                                  for command in job_list]
         super().next()
 
+    def after(self, application_job: ApplicationStartJobs) -> None:
+        """ Cancel the application stop that a real Starter triggers on a starting failure (STOP strategy):
+        the model only predicts and must not send any request. """
+        application_job.stop_request = False
+
     def publish_state_modes(self):
         """ Empty method to cancel states & mode publication. """
